@@ -29,6 +29,8 @@ def signature(msg, case_lines):
             m = int(m3.group(1))
             calls = "+".join(n for b, n in ((1, "inc"), (2, "dec"), (4, "reset"), (8, "load")) if m & b) or "none"
             return "prim:%s:api=%s" % (prim, calls)
+    if prim == "graysync":
+        return "prim:graysync:" + ("reset-phase" if "reset-phase" in msg else "settled" if "settled" in msg else "other")
     return "prim:" + prim
 
 
@@ -39,10 +41,10 @@ vlib.standard_check({
     "prop_module": "GateryModel.Properties.C17",
     "exe": "gv_c17",
     "harness": "c17",
-    # harness args after the seed: <ncases> <maxw>; 41 primitive slots per round, one width per slot and round
+    # harness args after the seed: <ncases> <maxw>; 43 primitive slots per round, one width per slot and round
     # (4 of the slots sweep the 16 Counter API usage patterns: 20 rounds = every pattern for every constructor / kind of limit)
-    "streams": {"quick": [[820, 20]], "thorough": [[5330, 130], [1640, 20], [1230, 64]]},
-    "search": [[1640, 24], [1640, 70]],
+    "streams": {"quick": [[860, 20]], "thorough": [[5590, 130], [1720, 20], [1290, 64]]},
+    "search": [[1720, 24], [1720, 70]],
     "signature": signature,
     "eval_key": "ops",
     "nontrivial": lambda t: sum(v for k, v in t.get("hist", {}).items() if not k.endswith(":err")),
@@ -53,7 +55,9 @@ vlib.standard_check({
             "both placement orders of load/reset), 40-300 clock cycles of inc/dec/both/idle/load/reset runs incl. several calls per cycle, "
             "value/isLast/isFirst/becomesFirst compared every cycle; evaluation = one simulated vector or clock cycle, "
             "each compared with the structural model (DIFF) and with the arithmetic definition (PROPFAIL); pipelined variants (registered priority tree, "
-            "pipelined divider) are driven with 40-90 cycle input streams and compared against the delayed definition; malformed-parameter stream 'bad' must throw",
+            "pipelined divider) are driven with 40-90 cycle input streams and compared against the delayed definition; synchronizeGrayCode (both overloads, widths 1..24, "
+            "every small / random reset values, 2-4 stages, with/without input register, 10 clock-period pairs incl. equal and ratio clocks): every clock-edge "
+            "instant from power-on, inputs counting (gray-safe), jumping and held; malformed-parameter stream 'bad' must throw",
     "trusted_base": ["Lean 4.33 kernel", "axioms: propext, Classical.choice, Quot.sound only (audited per theorem)",
                      "GateryModel/C17/Spec.lean (popcount, lowest/highest set bit, reflected Gray code, n/d, Int.tdiv, modulo-E counter, clamp, "
                      "carry-less product / polynomial remainder) as the meaning of 'mathematical definition'",
@@ -66,7 +70,8 @@ vlib.standard_check({
                     "add()'s carry vector and CrcState/crcDef agreement are covered by correspondence + definition check only (no theorem)",
                     "GCD and primitives not named in the property are out of scope",
                     "inputs are fully defined (no 'x' propagation claims)"],
-    "extra_cov": lambda t: {"counter_api_patterns": t.get("counter_api", {}),
+    "extra_cov": lambda t: {"graysync_reset_phase_checks": t.get("graysync_reset_checks", 0), "graysync_settled_checks": t.get("graysync_settled_checks", 0),
+                            "counter_api_patterns": t.get("counter_api", {}),
                             "primitives_exercised": sorted(k for k in t.get("hist", {}) if not k.endswith(":err")),
                             "generator_rejections": {k: v for k, v in t.get("hist", {}).items() if k.endswith(":err")},
                             "width_classes": t.get("widths", {})},
